@@ -67,9 +67,9 @@ claim("C03", "fault_enumeration",
       "DESIGN.md §5 C03")
 
 claim("C04", "model_checking",
-      "Handler.tla is checked exhaustively (3 parties, one Byzantine using valid, equivocated, failing, undecodable and protocol-detected payloads, wrong message kinds, abort notices; every delivery order) for BlameSound (a self-detected error names only the deviating party), EchoNamesNobody and NoticeBlame; TLC rejects the pre-fix ordering (echo compared only in finalize) as a negative control. The deviations of FaultCat.tla (field alterations, header malformations, every equivocation scenario) are run on real protocols with exactly one deviating real party; the harness knows who deviated and checks Culprits at every honest party, and every recorded API call is validated against Handler.tla with the blame invariants evaluated in every state. PresignAlg.tla models the algebra of CMP presigning and of its identification rounds over Z_3 / Z_5 / Z_7 (what the proofs leave free: the broadcast delta share, the committed chi share, the stored k / chi share): TLC checks that the recomputation formulas of abort1 / abort2 and the per-share sigma check single out exactly the deviating signer and at which stage, and prints the deviation catalogue; each case is run on the real protocol with a state-level cheater whose proofs pass (offline, full and online variants, every position) and stage and culprits are compared. The as-coded variant of the model (proofs checked against the wrong ciphertext slot) must violate BlameExact: it is the model-level account of the known finding.",
+      "Handler.tla is checked exhaustively (3 parties, one Byzantine using valid, equivocated, failing, undecodable and protocol-detected payloads, wrong message kinds, abort notices; every delivery order) for BlameSound (a self-detected error names only the deviating party), EchoNamesNobody and NoticeBlame; TLC rejects the pre-fix ordering (echo compared only in finalize) as a negative control. The deviations of FaultCat.tla (field alterations, header malformations, every equivocation scenario) are run on real protocols with exactly one deviating real party; the harness knows who deviated and checks Culprits at every honest party, and every recorded API call is validated against Handler.tla with the blame invariants evaluated in every state. PresignAlg.tla models the algebra of CMP presigning and of its identification rounds over Z_3 / Z_5 / Z_7 (what the proofs leave free: the broadcast delta share, the committed chi share, the stored k / chi share): TLC checks that the recomputation formulas of abort1 / abort2 and the per-share sigma check single out exactly the deviating signer and at which stage, and prints the deviation catalogue; each case is run on the real protocol with a state-level cheater whose proofs pass (offline, full and online variants, every position) and stage and culprits are compared. The as-coded variant of the model (proofs checked against the wrong ciphertext slot) must violate BlameExact: it is the model-level account of the known finding. FrostAlg.tla does the same for FROST signing over GF(7) (binding factors and challenge range over all values): a signer that answers inconsistently with what it published is named by every honest signer's per-share check, nobody else ever is; its deviation catalogue is run on real FROST / Taproot signing with a state-level cheater.",
       "Exhaustive for 3 parties in the model; real protocols by catalogue (CMP sampled). The cheater scenarios of presigning are judged by culprits and stage; they are not replayed against Handler.tla (fixed round shape).",
-      "TLC model checking of Handler.tla blame invariants and PresignAlg.tla + TLC-enumerated deviations run on real protocols + trace validation",
+      "TLC model checking of Handler.tla blame invariants, PresignAlg.tla and FrostAlg.tla + TLC-enumerated deviations run on real protocols + trace validation",
       "DESIGN.md §3.1, §5 C04")
 
 claim("C05", "fault_enumeration",
